@@ -367,3 +367,29 @@ def run(ck, facts):
     ck.expect(marker.get("Send") == [(("is_send",), "t")] and marker.get("Sync") == [(("is_sync",), "t")], "R5", "macro::gen_bridge/send-sync-independent", str(marker),
               "the `unsafe impl Send/Sync` items for a trait wrapper are emitted under %s (expected: Send iff is_send, Sync iff is_sync): a trait declared with both bounds "
               "loses one of them and the expansion no longer type-checks where that bound is required" % marker, C.loc(gbf))
+
+    # ---------------- R3 (cont.) include guards are derived from the whole relative path (two files of the same name in different directories get different guards)
+    ng = 0
+    for f in tool.fn_list:
+        if "hir" not in f or not re.search(r"::(c|cpp)::header::", f["path"]) or not f["path"].endswith("::fmt"):
+            continue
+        defs_ = flow.defs_of(f)
+        for n in C.walk(C.fn_body(f)):
+            if n.get("k") == "letst" and isinstance(n.get("pat"), dict) and "guard" in str(n["pat"].get("n")) and n.get("init") is not None:
+                ng += 1
+                nodes, todo, seen_ = [], [n["init"]], set()
+                while todo:
+                    e_ = todo.pop()
+                    for x in C.walk(e_):
+                        nodes.append(x)
+                        if x.get("k") == "local" and x.get("id") not in seen_:
+                            seen_.add(x.get("id"))
+                            d_ = defs_.get(x.get("id"))
+                            if d_ and d_[0] == "expr":
+                                todo.append(d_[1])
+                from_path = any(x.get("k") == "field" and x.get("n") == "path" for x in nodes)
+                cut = sorted({x["m"] for x in nodes if x.get("k") == "mcall" and x.get("m") in ("rsplit", "split", "rsplit_once", "split_once", "file_name", "file_stem", "rsplitn", "splitn", "rfind", "find", "last", "next", "nth", "trim_start_matches", "strip_prefix")})
+                ck.expect(from_path and not cut, "R3", "%s/include-guard-from-full-path" % C.norm_path(f["path"]).split("::")[1], "guard = path with separators replaced",
+                          "the include guard is built from part of the path only (%s): two generated headers with the same file name in different namespace directories share one guard, the second one is skipped" % cut, C.loc(f, n.get("ln")))
+    if ng < 2:
+        ck.bad("R3", "include-guard/anchor", "include guard computation not found in c::header / cpp::header (2 counted)")
